@@ -282,6 +282,7 @@ def run_unit(unit_dir: str, repo_root: str = '/repo', tier: str = 'quick', keep:
         res['rules_detail'] = {k: v for k, v in em.rules.items() if k.endswith('_lines')}
         res['substitutions'] = em.substitutions
         res['items'] = em.items
+        res['imports'] = em.imports
         obs, assumed = static_obligations(unit, em)
         res['assumed_contracts'] = assumed
         res['assumption_scan'] = scan_assumptions(em)
